@@ -49,7 +49,13 @@ def pw_map(x, ob, rb):
 def case(ctx, i, rec):
     rng = ctx.rng(i)
     ts, r = zoo.any_input(rng, allow_inferred=(i % 6 == 0))
-    kw = dict(mutation_rate=common.default_mu(ts, r), return_fit=True,
+    # the same problem posed in other time units: ages of order 1e-15 .. 1e9 (distinct ages stay distinct)
+    tscale = float(rng.choice([1.0, 1.0, 1.0, 1e-15, 1e-12, 1e9]))
+    if tscale != 1.0:
+        if not common.contemporaneous(ts):
+            ts = zoo.rescale_time(ts, tscale)
+        rec.count("runs_in_other_time_units")
+    kw = dict(mutation_rate=common.default_mu(ts, r) / tscale, return_fit=True,
               rescaling_intervals=int(rng.choice([1, 2, 10, 10, 1000])),
               rescaling_iterations=int(rng.choice([1, 5, 20])),
               match_segregating_sites=bool(rng.random() < 0.4),
@@ -151,6 +157,6 @@ def case(ctx, i, rec):
 
 
 def reach(ctx, agg):
-    need = {"rescale_calls": 100, "mutational_area_calls": 300, "area_calls_with_reversed_branches": 5,
+    need = {"rescale_calls": 100, "mutational_area_calls": 300, "runs_in_other_time_units": 30, "area_calls_with_reversed_branches": 5,
             "rescale_calls:intervals=1": 10, "rescale_calls:intervals=1000": 5, "posteriors_rescaled": 1000}
     return [f"{k} = {agg.cnt.get(k, 0)} < {v}" for k, v in need.items() if agg.cnt.get(k, 0) < v]
